@@ -175,3 +175,215 @@ theorem gateAct_loop (h : LawfulAmp α P) (n : Nat) (bits : List Nat) (hv : vali
       rw [mulVec_embed_mul n ψ hψ bits hv B _ hB (mpow_wf _ B hB j), pow_succ, mul_comm]
 
 end Q1t.Proofs.CQasm
+
+namespace Q1t.Proofs.CQasm
+open Q1t Q1t.Spec Q1t.Proofs.Route Q1t.CQ Q1t.Proofs.Unitaries
+
+variable {α P : Type} [CommRing α] [Amp α P]
+
+/-! ### the placed lines of a gate term, and the class -/
+
+mutual
+def gateLinesN : XGate P → List Nat → Option (List (List Nat × LMat α))
+  | .lib name ps, bits => (exactDenot (α := α) name (ps.map Param.value)).map (placeApps bits)
+  | .ctl _, _ => none
+  | .kron g0 g1, bits =>
+      match gateLinesN g0 (bits.take (nrBits g0)), gateLinesN g1 (bits.drop (nrBits g0)) with
+      | some l0, some l1 => some (l0 ++ l1)
+      | _, _ => none
+  | .comp _ _ ops, bits => opsLinesN ops bits
+  | .loop _ iters _ _ ops, bits => (opsLinesN ops bits).map fun l => repeatLines l iters
+def opsLinesN : XOps P → List Nat → Option (List (List Nat × LMat α))
+  | .nil, _ => some []
+  | .cons g sub rest, bits =>
+      match gateLinesN g (relabel bits sub), opsLinesN rest bits with
+      | some l, some r => some (l ++ r)
+      | _, _ => none
+end
+
+def libOK (name : String) (ps : List (Param P)) : Bool :=
+  (exactAll.contains name || phaseGates.contains name) && ps.all (fun p => !p.isRef) &&
+    ps.length == (paramsOfName name).length
+
+def oneLine (name : String) : Bool := (slinesOfName name).map List.length == some 1
+
+def partOK : XGate P → Bool
+  | .lib name ps => libOK name ps && oneLine name
+  | _ => false
+
+mutual
+/-- gate terms whose export is semantically right: good library gates with direct parameters; a `Kron` of two
+one-line library gates (a bundle); composites with valid sub-placements; loops that are not inside a loop -/
+def termOK (inLoop : Bool) : XGate P → Bool
+  | .lib name ps => libOK name ps
+  | .ctl _ => false
+  | .kron g0 g1 => partOK g0 && partOK g1
+  | .comp _ n ops => opsOK inLoop n ops
+  | .loop _ _ _ n ops => !inLoop && opsOK true n ops
+def opsOK (inLoop : Bool) (n : Nat) : XOps P → Bool
+  | .nil => true
+  | .cons g sub rest => termOK inLoop g && sub.length == nrBits g && validBits n sub && opsOK inLoop n rest
+end
+
+theorem nrBits_lib (name : String) (ps : List (Param P)) : nrBits (.lib name ps : XGate P) = libBits name := rfl
+
+theorem lib_act (h : LawfulAmp α P) (hh : LawfulHalf α P) (hn : LawfulNegHalf α P) (hq : LawfulQuarter α P) (n : Nat)
+    (name : String) (ps : List (Param P)) (hok : libOK name ps = true) (bits : List Nat)
+    (hl : bits.length = libBits name) (hv : validBits n bits = true) :
+    ∃ L term, gateLinesN (α := α) (.lib name ps) bits = some L ∧ toTerm (.lib name ps : XGate P) = some term ∧
+      GateAct P n L term bits := by
+  simp only [libOK, Bool.and_eq_true, Bool.or_eq_true, List.contains_iff_mem, beq_iff_eq, List.all_eq_true] at hok
+  obtain ⟨⟨hname, _⟩, hlen⟩ := hok
+  have hlen' : (ps.map Param.value).length = (paramsOfName name).length := by simpa using hlen
+  rcases hname with hname | hname
+  · obtain ⟨apps, term, e1, e2, e3, e4⟩ := exact_gate_all (α := α) h hh hn name hname _ hlen'
+    have hwf : WFMat (2 ^ bits.length) (specMatrix term : LMat α) := by
+      -- the product of placed matrices on `k` qubits is well formed
+      rw [← e4, hl]
+      unfold prodK
+      have : ∀ (as : List (List Nat × LMat α)) (acc : LMat α), WFMat (2 ^ libBits name) acc →
+          WFMat (2 ^ libBits name) (as.foldl (fun m a => LMat.mul (embed (libBits name) a.1 a.2) m) acc) := by
+        intro as
+        induction as with
+        | nil => intro acc h; exact h
+        | cons a as ih => intro acc h; exact ih _ (mul_wf _ _ _ (embed_wf _ a.1 a.2) h)
+      exact this apps _ (identity_wf _)
+    refine ⟨placeApps bits apps, term, by simp [gateLinesN, e1], by simpa [toTerm] using e2, ?_⟩
+    apply gateAct_leaf n bits hv apps _ term 1 (by rw [h.conj_one]; ring) hwf (by rw [hl, e4, smul_one_mat])
+    intro a ha; rw [hl]
+    simpa using List.all_eq_true.mp e3 a.1 (List.mem_map_of_mem ha)
+  · obtain ⟨apps, term, g, e1, e2, e3, e4, e5, e6⟩ := phase_gate (α := α) h hh hn hq name hname _ hlen'
+    refine ⟨placeApps bits apps, term, by simp [gateLinesN, e1], by simpa [toTerm] using e2, ?_⟩
+    apply gateAct_leaf n bits hv apps _ term g e4 (by rw [hl]; exact e5) (by rw [hl]; exact e6)
+    intro a ha; rw [hl]
+    simpa using List.all_eq_true.mp e3 a.1 (List.mem_map_of_mem ha)
+
+theorem part_act (h : LawfulAmp α P) (hh : LawfulHalf α P) (hn : LawfulNegHalf α P) (hq : LawfulQuarter α P) (n : Nat)
+    (g : XGate P) (hok : partOK g = true) (bits : List Nat) (hl : bits.length = nrBits g) (hv : validBits n bits = true) :
+    ∃ L term, gateLinesN (α := α) g bits = some L ∧ toTerm g = some term ∧ GateAct P n L term bits := by
+  cases g with
+  | lib name ps =>
+    simp only [partOK, Bool.and_eq_true] at hok
+    exact lib_act h hh hn hq n name ps hok.1 bits hl hv
+  | ctl _ => simp [partOK] at hok
+  | kron _ _ => simp [partOK] at hok
+  | comp _ _ _ => simp [partOK] at hok
+  | loop _ _ _ _ _ => simp [partOK] at hok
+
+mutual
+theorem term_act (h : LawfulAmp α P) (hh : LawfulHalf α P) (hn : LawfulNegHalf α P) (hq : LawfulQuarter α P) (n : Nat) :
+    (g : XGate P) → (inLoop : Bool) → termOK inLoop g = true → (bits : List Nat) → bits.length = nrBits g →
+    validBits n bits = true →
+    ∃ L term, gateLinesN (α := α) g bits = some L ∧ toTerm g = some term ∧ GateAct P n L term bits
+  | .lib name ps, _, hok, bits, hl, hv => lib_act h hh hn hq n name ps (by simpa [termOK] using hok) bits hl hv
+  | .ctl _, _, hok, _, _, _ => by simp [termOK] at hok
+  | .kron g0 g1, _, hok, bits, hl, hv => by
+    simp only [termOK, Bool.and_eq_true] at hok
+    simp only [nrBits] at hl
+    have hsplit : bits.take (nrBits g0) ++ bits.drop (nrBits g0) = bits := List.take_append_drop _ _
+    have hv' : validBits n (bits.take (nrBits g0) ++ bits.drop (nrBits g0)) = true := by rw [hsplit]; exact hv
+    obtain ⟨hv0, hv1, _⟩ := validBits_of_append n _ _ hv'
+    obtain ⟨L0, t0, e0, f0, a0⟩ := part_act h hh hn hq n g0 hok.1 _ (by simp; omega) hv0
+    obtain ⟨L1, t1, e1, f1, a1⟩ := part_act h hh hn hq n g1 hok.2 _ (by simp; omega) hv1
+    refine ⟨L0 ++ L1, .Kron t0 t1, by simp [gateLinesN, e0, e1], by simp [toTerm, f0, f1], ?_⟩
+    have := gateAct_kron h n L0 L1 t0 t1 _ _ hv' a0 a1
+    rwa [hsplit] at this
+  | .comp name k ops, inLoop, hok, bits, hl, hv => by
+    simp only [termOK] at hok
+    simp only [nrBits] at hl
+    subst hl
+    obtain ⟨L, opsT, e, f, a⟩ := ops_act h hh hn hq n ops inLoop bits hok hv
+    exact ⟨L, .Composite name bits.length opsT, by simpa [gateLinesN] using e, by simp [toTerm, f],
+      gateAct_composite n bits hv name L opsT a⟩
+  | .loop label iters name k ops, inLoop, hok, bits, hl, hv => by
+    simp only [termOK, Bool.and_eq_true] at hok
+    simp only [nrBits] at hl
+    subst hl
+    obtain ⟨L, opsT, e, f, a⟩ := ops_act h hh hn hq n ops true bits hok.2 hv
+    exact ⟨repeatLines L iters, .Loop (String.ofList label) iters name bits.length opsT, by simp [gateLinesN, e],
+      by simp [toTerm, f], gateAct_loop h n bits hv _ name iters L opsT a⟩
+theorem ops_act (h : LawfulAmp α P) (hh : LawfulHalf α P) (hn : LawfulNegHalf α P) (hq : LawfulQuarter α P) (n : Nat) :
+    (ops : XOps P) → (inLoop : Bool) → (bits : List Nat) → opsOK inLoop bits.length ops = true →
+    validBits n bits = true →
+    ∃ L opsT, opsLinesN (α := α) ops bits = some L ∧ toTermOps ops = some opsT ∧ OpsAct P n L opsT bits
+  | .nil, _, bits, _, _ => ⟨[], .nil, rfl, rfl, opsAct_nil h n bits⟩
+  | .cons g sub rest, inLoop, bits, hok, hv => by
+    simp only [opsOK, Bool.and_eq_true, beq_iff_eq] at hok
+    obtain ⟨⟨⟨hg, hlen⟩, hsub⟩, hrest⟩ := hok
+    obtain ⟨Lg, tg, eg, fg, ag⟩ := term_act h hh hn hq n g inLoop hg (relabel bits sub)
+      (by rw [length_relabel]; exact hlen) (validBits_relabel n bits sub hv hsub)
+    obtain ⟨Lr, tr, er, fr, ar⟩ := ops_act h hh hn hq n rest inLoop bits hrest hv
+    exact ⟨Lg ++ Lr, .cons tg sub tr, by simp [opsLinesN, eg, er], by simp [toTermOps, fg, fr],
+      opsAct_cons h n bits sub hv hsub Lg Lr tg tr ag ar⟩
+end
+
+end Q1t.Proofs.CQasm
+
+namespace Q1t.Proofs.CQasm
+open Q1t Q1t.Spec Q1t.Proofs.Route Q1t.CQ Q1t.Proofs.Unitaries
+
+variable {α P : Type} [CommRing α] [Amp α P]
+
+theorem stepPh_of_gateAct (n : Nat) (nz : List α → Bool) (L : List (List Nat × LMat α)) (term : GateTerm P)
+    (bits : List Nat) (ha : GateAct P n L term bits) (hkept : NzKept n nz term bits) :
+    StepPh P n nz (gateLines L) (.gate term bits) := by
+  intro br hbr
+  obtain ⟨ψ, w⟩ := br
+  obtain ⟨_, c, hc, hr⟩ := ha
+  have hnz := hkept ψ hbr.len hbr.nonzero
+  refine ⟨_, born_gate n nz term bits ψ w hnz, ?_⟩
+  rw [dSeq_gateLines' n nz L ψ w, hr ψ hbr.len]
+  exact List.Forall₂.cons ⟨gate_op_inv n nz _ (embed_wf n bits _).1 (ψ, w) hbr hnz, c, hc, rfl⟩ List.Forall₂.nil
+
+/-- the per-operation class with arbitrary sound gate terms: bundles (`Kron`), composites, loops -/
+inductive FaithfulOpT (n : Nat) (nz : List α → Bool) : XOp P → List (DStmt α) → Sim.COp P → Prop
+  | base (op : XOp P) (D : List (DStmt α)) (cop : Sim.COp P) : FaithfulOpPh n nz op D cop → FaithfulOpT n nz op D cop
+  | term (g : XGate P) (bits : List Nat) (L : List (List Nat × LMat α)) (term : GateTerm P) :
+      termOK false g = true → bits.length = nrBits g → validBits n bits = true →
+      gateLinesN (α := α) g bits = some L → toTerm g = some term → NzKept n nz term bits →
+      FaithfulOpT n nz (.gate g bits) (gateLines L) (.gate term bits)
+
+theorem stepRel_of_faithfulT (h : LawfulAmp α P) (hh : LawfulHalf α P) (hn : LawfulNegHalf α P) (hq : LawfulQuarter α P)
+    (n : Nat) (hn64 : n ≤ 64) (nz : List α → Bool) (hs : NzScale P nz) (op : XOp P) (D : List (DStmt α))
+    (cop : Sim.COp P) (hf : FaithfulOpT n nz op D cop) : StepRel (PhRel P n nz) n nz D cop := by
+  cases hf with
+  | base op D cop hf' => exact stepRel_of_faithfulPh h hh hn hq n hn64 nz hs op D cop hf'
+  | term g bits L term h1 h2 h3 h4 h5 h6 =>
+    apply stepRel_of_stepPh h n nz hs
+    obtain ⟨L', term', e1, e2, e3⟩ := term_act (α := α) h hh hn hq n g false h1 bits h2 h3
+    rw [h4] at e1; injection e1 with e1; subst e1
+    rw [h5] at e2; injection e2 with e2; subst e2
+    exact stepPh_of_gateAct n nz L term bits e3 h6
+
+/-- every sound gate term on a valid placement is in the class -/
+theorem faithful_term (h : LawfulAmp α P) (hh : LawfulHalf α P) (hn : LawfulNegHalf α P) (hq : LawfulQuarter α P)
+    (n : Nat) (nz : List α → Bool) (g : XGate P) (hok : termOK false g = true) (bits : List Nat)
+    (hl : bits.length = nrBits g) (hv : validBits n bits = true) (hkept : ∀ term : GateTerm P, NzKept n nz term bits) :
+    ∃ D cop, FaithfulOpT n nz (.gate g bits) D cop := by
+  obtain ⟨L, term, e1, e2, _⟩ := term_act (α := α) h hh hn hq n g false hok bits hl hv
+  exact ⟨_, _, FaithfulOpT.term g bits L term hok hl hv e1 e2 (hkept term)⟩
+
+/-- **cq_equiv_partial with bundles, composites and loops (whole circuits, value level, up to a phase per branch)** -/
+theorem circuit_equiv_term (h : LawfulAmp α P) (hh : LawfulHalf α P) (hn : LawfulNegHalf α P) (hq : LawfulQuarter α P)
+    (n : Nat) (hn64 : n ≤ 64) (nz : List α → Bool) (hs : NzScale P nz)
+    (hnz0 : nz ((List.range (2 ^ n)).map fun i => if i = 0 then (1 : α) else 0) = true)
+    (steps : List (XOp P × List (DStmt α) × Sim.COp P)) (hst : ∀ s ∈ steps, FaithfulOpT n nz s.1 s.2.1 s.2.2) :
+    ∃ r2, Spec.branches n nz (steps.map (·.2.2)) (CQ1.initial n) = some r2 ∧
+      List.Forall₂ (PhRel P n nz) (dSeq n nz (steps.flatMap (·.2.1)) (CQ1.initial n)) r2 := by
+  have hsteps : ∀ s ∈ steps.map (fun s => (s.2.1, s.2.2)), StepRel (PhRel P n nz) n nz s.1 s.2 := by
+    intro s hsm
+    obtain ⟨x, hx, rfl⟩ := List.mem_map.mp hsm
+    exact stepRel_of_faithfulT h hh hn hq n hn64 nz hs x.1 x.2.1 x.2.2 (hst x hx)
+  have hinit : List.Forall₂ (PhRel P n nz) (CQ1.initial n : List (CQ1.Branch α)) (CQ1.initial n) := by
+    have hi := init_inv n nz hnz0
+    simp only [CQ1.initial] at hi ⊢
+    exact List.Forall₂.cons ⟨hi _ (by simp), 1, by rw [h.conj_one]; ring, by simp [scaleBr, vsmul_one]⟩ List.Forall₂.nil
+  obtain ⟨r2, hr2, hrel⟩ := fold_equiv (PhRel P n nz) n nz _ hsteps _ _ hinit
+  have e1 : (steps.map (fun s => (s.2.1, s.2.2))).map (·.2) = steps.map (·.2.2) := by simp
+  have e2 : (steps.map (fun s => (s.2.1, s.2.2))).flatMap (·.1) = steps.flatMap (·.2.1) := by
+    simp [List.flatMap_map]
+  rw [e1] at hr2
+  rw [e2] at hrel
+  exact ⟨r2, hr2, hrel⟩
+
+end Q1t.Proofs.CQasm
